@@ -68,8 +68,12 @@ func (c c02Ctr) Sexp() Sexp {
 	for i, n := range c.Names {
 		names[i] = B(n)
 	}
-	labels := make([]Sexp, len(c.Labels))
-	for i, kv := range c.Labels {
+	// the querier inserts the Docker labels in key order (the later key wins a sanitisation collision): the
+	// model is handed them in that order; a key listed twice keeps its last value, as the Go map does
+	sorted := append([][2]string{}, c.Labels...)
+	sort.SliceStable(sorted, func(a, b int) bool { return sorted[a][0] < sorted[b][0] })
+	labels := make([]Sexp, len(sorted))
+	for i, kv := range sorted {
 		labels[i] = L(B(kv[0]), B(kv[1]))
 	}
 	return L(A("ctr"), B(c.ID), LS(names), B(c.Image), B(c.ImageID), B(c.Command), B(strconv.FormatInt(c.Created, 10)),
@@ -205,7 +209,7 @@ func c02GenMatcher(r *rand.Rand, inv []c02Ctr) c02Matcher {
 }
 
 func c02Gen(r *rand.Rand) c02Case {
-	t := c02Case{Inv: c02GenInv(r, false)}
+	t := c02Case{Inv: c02GenInv(r, true)}
 	for i, n := 0, r.Intn(4); i < n; i++ {
 		t.Sel = append(t.Sel, c02GenMatcher(r, t.Inv))
 	}
